@@ -209,6 +209,9 @@ class FieldData:
     if value is None:
       if fieldname in self._data:
         self._data.pop(fieldname)
+        if fieldname not in self.positional_fieldnames:
+          # the tag is removed: so is the datatype it was given
+          self._datatype.pop(fieldname, None)
     else:
       if self.vlevel >= 3:
         self._field_or_default_datatype(fieldname, value)
